@@ -45,6 +45,8 @@ def run(ctx):
     rep.rule("C18.R4", "one scalar prox parameter per vector-valued friction law (Coulomb direction)", 4)
     rep.rule("C18.R3", "active-set restriction of velocity-level normal percussions", 3)
     rep.rule("C18.R5", "local normal/friction connectivity of the active set (index typing in compute_I_F)", 4)
+    rep.rule("C18.R11", "RATTLE: the active set of stage 2 is the set on which stage 1's normal projection is active, decided from the SAME argument the stage-1 prox projects (so a contact that carries a stage-1 percussion is in it by construction, whatever gap residual the stage-1 iteration left)", 1)
+    rattle_stage2_set(ctx)
     rep.rule("C18.R10", "velocity-level schemes: the active set is a function of the gap alone - every CLOSED contact takes part in the complementarity problem; no velocity-dependent pre-filter", 2)
     active_set_is_positional(ctx)
     rep.rule("C18.R6", "one evaluation point (t, q) for all gap-rate terms of a velocity-level Signorini update", 3)
@@ -132,6 +134,39 @@ def run(ctx):
             else:
                 rep.bad("C18.R3", C, fn.name, "velocity-level normal percussions are not restricted to closed contacts (no active-set mask): an open contact "
                         "with approaching velocity would receive a percussion", f"{rel}:{fn.lineno}")
+
+
+def rattle_stage2_set(ctx, rule="C18.R11"):
+    """P_N1 = -prox_{R-}(r g_N - P_N1) is positive exactly where the argument is <= 0.  Stage 2 restricts its percussions to I_N and returns
+    P_N2 = -P_N1 elsewhere (total percussion zero).  If I_N is decided by another test - a closeness test on the gap with a tolerance tighter
+    than the one the stage-1 iteration was stopped at - a contact held closed by P_N1 > 0 with a gap residual of 5e-8 drops out, its stored
+    P_N is exactly 0 while it is closed with a negative restituted gap rate."""
+    rep = ctx.rep
+    rel = "cardillo/solver/rattle.py"
+    fn = ctx.repo.maybe(rel, "Rattle.prox1")
+    C = f"{rel}:Rattle.prox1"
+    if fn is None:
+        rep.ok(rule, C, "Rattle.prox1 not found (no verdict)", verdict="unknown", trivial=True)
+        return
+    binds = {w.targets[0].id: w.value for w in ast.walk(fn) if isinstance(w, ast.Assign) and len(w.targets) == 1 and isinstance(w.targets[0], ast.Name)}
+
+    def inl(e, depth=0):
+        if isinstance(e, ast.Name) and e.id in binds and depth < 4:
+            return inl(binds[e.id], depth + 1)
+        return e
+    proj = [w for w in ast.walk(fn) if isinstance(w, ast.Call) and norm_src(w.func) == "NegativeOrthant.prox" and w.args]
+    sets = [w for w in ast.walk(fn) if isinstance(w, ast.Assign) and len(w.targets) == 1 and norm_src(w.targets[0]) == "self.I_N"]
+    if not proj or not sets:
+        rep.ok(rule, C, "normal projection / definition of self.I_N not found in prox1 (no verdict)", verdict="unknown", trivial=True)
+        return
+    arg = norm_src(inl(proj[0].args[0]))
+    for st in sets:
+        v = st.value
+        if isinstance(v, ast.Compare) and len(v.ops) == 1 and isinstance(v.ops[0], (ast.LtE, ast.Lt)) and norm_src(v.comparators[0]) in ("0", "0.0") and norm_src(inl(v.left)) == arg:
+            rep.ok(rule, C, f"`{norm_src(st)[:60]}`: the set is where the projected argument `{arg[:40]}` is non-positive")
+        else:
+            rep.bad(rule, C, st, f"`{norm_src(st)[:80]}` decides the stage-2 active set by another test than the sign of the stage-1 prox argument `{arg[:50]}`: a contact with P_N1 > 0 whose gap "
+                    "residual exceeds that test's tolerance is dropped, stage 2 cancels its percussion (P_N = 0) although it is closed and its restituted gap rate is negative", f"{rel}:{st.lineno}")
 
 
 def active_set_is_positional(ctx, rule="C18.R10"):
@@ -627,4 +662,9 @@ MUTANTS += [
     dict(id="c18-r8-be", canary=True, what="[seeded by sub-agent] BackwardEuler tests convergence of its contact fixed point on the smooth state xn1 - x0, where x0 is the warm start from the previous step on the first pass", file='cardillo/solver/backward_euler.py',
          old="                    diff = yn1 - y0\n                    sc = (\n                        self.options.fixed_point_atol\n                        + np.maximum(np.abs(yn1), np.abs(y0))\n",
          new="                    diff = xn1 - x0\n                    sc = (\n                        self.options.fixed_point_atol\n                        + np.maximum(np.abs(xn1), np.abs(x0))\n", expect="C18.R8"),
+]
+
+MUTANTS += [
+    dict(id="c18-r11-seed", canary=True, what="[seeded by sub-agent] Rattle.prox1 decides the stage-2 active set by Moreau's closed-contact test on the gap instead of the sign of the stage-1 prox argument", file='cardillo/solver/rattle.py',
+         old="        self.I_N = prox_arg <= 0  # active set for second stage\n", new="        self.I_N = np.logical_or(g_N <= 0, np.isclose(g_N, np.zeros(self.nla_N), atol=1e-8))\n", expect="C18.R11"),
 ]
